@@ -1112,20 +1112,39 @@ def _r19_16(prog: Program, res: Result) -> None:
                             and norm(x.args[0]) in visited and new_text in norm(x.args[1]):
                         return True
                 return False
-            guard = None
-            a = c
-            while a is not None and a is not fn.node:
-                p = parent(a)
-                body_lists = [getattr(p, f_, None) for f_ in ("body", "orelse", "finalbody")] if p is not None else []
-                for body in body_lists:
-                    if isinstance(body, list) and a in body:
-                        for st in body[:body.index(a)]:
-                            if isinstance(st, ast.If) and st.body and isinstance(st.body[-1], (ast.Continue, ast.Return, ast.Raise)) \
-                                    and searches(st.test):
-                                guard = st
-                a = p
+            old_text = norm(c.args[1 - pos]) if len(c.args) == 2 and pos in (0, 1) else None
+            pa = PathAnalysis(prog, fn)
+
+            def lit_ok(fct) -> Optional[str]:
+                if fct[0] != "lit":
+                    return None
+                text = plain(fct[1])
+                try:
+                    t = ast.parse(text, mode="eval").body
+                except SyntaxError:
+                    return None
+                if not fct[2] and searches(t):
+                    return text                                   # searched, not found
+                if isinstance(t, ast.Compare) and len(t.ops) == 1 and old_text is not None and {norm(t.left), norm(t.comparators[0])} == {old_text, new_text} \
+                        and ((isinstance(t.ops[0], ast.Eq) and fct[2]) or (isinstance(t.ops[0], ast.NotEq) and not fct[2])):
+                    return text                                   # old and new spelling are the same: nothing is re-spelled
+                if isinstance(t, ast.Call) and isinstance(t.func, ast.Name) and t.func.id in ("eq", "ne") and len(t.args) == 2 and old_text is not None \
+                        and {norm(t.args[0]), norm(t.args[1])} == {old_text, new_text} and (t.func.id == "eq") == bool(fct[2]):
+                    return text                                   # the same, in the normal form of sa/pathcond.py
+                return None
+
+            def world_ok(w) -> Optional[str]:
+                for fct in w.facts:
+                    r = lit_ok(fct)
+                    if r:
+                        return r
+                    if fct[0] == "or" and all(lit_ok(m) for m in fct[1]):
+                        return " or ".join(lit_ok(m) for m in fct[1])
+                return None
+            verdicts = [world_ok(w) for w in pa.worlds_at(c)]
+            guard = sorted(set(verdicts)) if verdicts and all(verdicts) else None
             res.decide(guard is not None, "R19.16", fn.loc(c), fn.fq, f"{short(c, 70)} # every name of a subtree re-spelled",
-                       f"refused at line {guard.lineno} when the subtree already holds the new name" if guard is not None else
+                       f"reached only where {guard}: the subtree does not hold the new name, or nothing is re-spelled" if guard is not None else
                        f"the names of a subtree are re-spelled as `{new_text}` and nothing above searches the subtree for a name spelled that way already: "
                        "`[y for y in [x for x in data if x < y]]` became `[y for y in data if y < y]`, the enclosing `y` is captured")
     if n == 0:
